@@ -12,13 +12,15 @@ SPEC = {
          "eval": "fun c => let '(s, v, i) := c in check_parse s v i", "per_shard": 700},
         {"kind": "TV", "type": "(scalar * rv * outcome gv * outcome rv)",
          "eval": "fun c => let '(s, x, v, b) := c in check_tv s x v b", "per_shard": 700},
+        {"kind": "E2E", "type": "(scalar * N * option gv * outcome gv)",
+         "eval": "fun c => let '(s, r, v, i) := c in check_e2e s r v i", "per_shard": 700},
         {"kind": "SWEEP", "type": "(N * Z * list (N * outcome Z))",
          "eval": "fun c => let '(i, lo, r) := c in check_sweep i lo r", "per_shard": 9},
         {"kind": "SWEEPTV", "type": "(N * Z * list (N * (outcome Z * outcome Z)))",
          "eval": "fun c => let '(i, lo, r) := c in check_sweeptv i lo r", "per_shard": 3},
     ],
     "classes": {1: "f32-overflow-accepted-as-infinity", 2: "id-rejects-integer-above-i64-max",
-                3: "float-nonfinite-not-roundtrip"},
+                3: "float-nonfinite-not-roundtrip", 4: "u64-above-i64-max-rejected-by-validation"},
     "allowed_axioms": frozenset(),
     "n_quick": 1600, "n_thorough": 6400,
     "level": "proof",
@@ -29,9 +31,10 @@ SPEC = {
              "random Rust values; SWEEP lines each stand for every integer of a window (all of [-70000,70000], i.e. every "
              "8/16-bit value and its surroundings, plus windows at the 32/63/64-bit boundaries) offered to one of the 20 "
              "integer mappings, SWEEPTV lines for every value of the 8/16-bit types and their NonZero forms; one evaluation "
-             "is counted per line; distinct by (stream, scalar, value); non-trivial = the real library accepted the value"),
+             "is counted per line; E2E lines run the same value corpora through Schema::execute on a static echo schema "
+             "(one field per scalar mapping; inline literal, variable, variable default), judged by the same specification; distinct by (stream, scalar, value); non-trivial = the real library accepted the value"),
     "trusted": ["tools/factsgen/intscalar.py (impl bodies of integers.rs / non_zero_integers.rs -> IntScalarGen.v)",
-                "harness printers (Value -> gv, Rust value -> rv)",
+                "harness printers (Value -> gv, Rust value -> rv)", "hand-written model of the registered is_valid closures (valid_registered), tied by the E2E stream",
                 "differential sampling: Scalars.v = InputType::parse / to_value on this run's cases (floats, char, ID, enums, strings: hand-written model)"],
     "assumptions": [
         "isize/usize are 64 bits wide (asserted by the harness)",
@@ -46,7 +49,8 @@ MANIFEST = {
     "technique": ("Coq proof over the integer scalar table regenerated from integers.rs / non_zero_integers.rs on every run "
                   "(exact acceptance set, no panic, round trip: all integers), structural proofs for bool/String/char/ID/enums, "
                   "pure-integer model of f64/f32 conversion with round-trip proofs; differential correspondence through "
-                  "InputType::parse / to_value, exhaustive for 8/16-bit integer types"),
+                  "InputType::parse / to_value, exhaustive for 8/16-bit integer types, and end to end through Schema::execute "
+                  "(static echo schema; literal, variable, variable default) against the same specification"),
     "text": ("Coq theorems: for each of the 20 integer mappings (table translated from the source on every run) parse accepts "
              "exactly the integer Numbers in the Rust type's range (non-zero for NonZero types), never panics, and "
              "parse(to_value x) = x for every x of the type; the same two shapes for bool, String, char, ID and derived enums; "
